@@ -37,6 +37,10 @@ def check(prog: Program, run: Run) -> None:
     run.rule("C07.R7", "closed forms: linear segment, Horner evaluation, interpolation",
              floor=8)
     run.rule("C07.G5", "absent values are tested by identity, not truthiness", floor=2)
+    run.rule("C07.R8", "each part of a COMPU-SCALE is parsed with the data type of the side it "
+             "belongs to (limits and inverse value: domain; constant and coefficients: range)",
+             floor=7)
+    compu.scale_parse_roles(prog, run, "C07.R8")
     compu.interval_tables(prog, run, "C07.R1")
     compu.compare_values(prog, run, "C07.R1")
     compu.scale_applies(prog, run, "C07.R1")
